@@ -108,11 +108,6 @@ def _mesh(net, nodes, lat=0.01, **kw):
             net.add_bidirectional_link(a, b, _link(f"l_{a.name}_{b.name}", lat, **kw))
 
 
-def _star(net, hub, leaves, lat=0.01, **kw):
-    for b in leaves:
-        net.add_bidirectional_link(hub, b, _link(f"l_{hub.name}_{b.name}", lat, **kw))
-
-
 def _src(rate, target, typ, ctx_fn, stop_after, name="src", poisson=False):
     prov = SimpleEventProvider(target, typ, _t(stop_after), context_fn=ctx_fn)
     f = Source.poisson if poisson else Source.constant
@@ -1551,7 +1546,8 @@ def data_crdt_store_gossip():
                 evs.append(_ev(2.0, c, to=ss[i], op="Read", key="reg"))
         evs += [_ev(1.0, k, op="part"), _ev(1.0 + ONE001, k, op="heal")]
         _run([net, *ss, *cs, k], evs, end=4.0, starters=[s.get_gossip_event for s in ss])
-        out[nm] = [len(replies), sum(s.stats.gossip_sent for s in ss), len({str(s.crdts.get("key", s.crdts.get("reg")).value) for s in ss})]
+        values = {str(s.crdts.get("key", s.crdts.get("reg")).value) for s in ss}
+        out[nm] = [len(replies), sum(s.stats.gossip_sent for s in ss), len(values)]
     return out
 
 
@@ -2200,13 +2196,117 @@ def data_far_from_epoch_submicro_periods():
     return {"syncs": ls[0].stats.anti_entropy_syncs, "gossip": cs[0].stats.gossip_sent}
 
 
-SCENARIOS = {}
+def data_raft_lossy_jittery_links():
+    """Three RaftNodes over links with 30 % loss, exponential jitter and a bandwidth limit; election
+    timeout 1/3 .. 0.7 s, heartbeat 0.1 s; commands submitted every 0.1*3 s."""
+    from happysimulator.components.consensus.raft import RaftNode
+    from happysimulator.components.network.network import Network
+    _seed(88)
+    net = Network(name="net")
+    nodes = [RaftNode(name=f"node-{i}", network=net, election_timeout_min=THIRD, election_timeout_max=P7,
+                      heartbeat_interval=H3 / 3) for i in range(3)]
+    for nd in nodes:
+        nd.set_peers([x for x in nodes if x is not nd])
+    _mesh(net, nodes, lat=THIRD / 100, packet_loss_rate=0.3, jitter=ExponentialLatency(H3 / 100),
+          bandwidth_bps=1e6 / 3)
+    futs = []
+
+    def ctl(w, ev):
+        for n in nodes:
+            if n.is_leader:
+                futs.append(n.submit({"op": "set", "key": f"k{len(futs) % 3}", "value": len(futs)}))
+        return None
+    k = _Proc("ctl", ctl)
+    _run([net, *nodes, k], [_ev(1.0 + i * H3, k) for i in range(10)], end=6.0,
+         starters=[n.start for n in nodes])
+    return {"terms": [n.current_term for n in nodes], "resolved": sum(f.is_resolved for f in futs)}
 
 
-def _register(ns):
-    for k, v in list(ns.items()):
-        if k.startswith("data_") and callable(v):
-            SCENARIOS[k] = v
+def data_paxos_minority_partition():
+    """Five PaxosNodes; a proposer cut off with one peer (minority) proposes, the majority side decides
+    another value, the partition heals and the minority proposer proposes again; retry delay 0.1*3 s."""
+    from happysimulator.components.consensus.paxos import PaxosNode
+    from happysimulator.components.network.network import Network
+    _seed(89)
+    net = Network(name="net")
+    nodes = [PaxosNode(name=f"p{i}", network=net, retry_delay=H3) for i in range(5)]
+    for nd in nodes:
+        nd.set_peers([x for x in nodes if x is not nd])
+    _mesh(net, nodes, lat=THIRD / 10)
+    handle = {}
+    futs = []
+
+    def ctl(w, ev):
+        op = ev.context["op"]
+        if op == "part":
+            handle["h"] = net.partition(nodes[:2], nodes[2:])
+        elif op == "heal":
+            handle.pop("h").heal()
+        else:
+            n = nodes[ev.context["i"]]
+            futs.append(n.propose(f"v{ev.context['i']}"))
+            return n.start_phase1()
+        return None
+    k = _Proc("ctl", ctl)
+    evs = [_ev(0.0, k, op="part"), _ev(0.1, k, op="propose", i=0), _ev(0.1, k, op="propose", i=4),
+           _ev(1.0, k, op="heal"), _ev(1.0 + NS, k, op="propose", i=0), _ev(1.0 + NS, k, op="propose", i=1)]
+    _run([net, *nodes, k], evs, end=5.0)
+    return {"decided": sorted({str(n.decided_value) for n in nodes}), "resolved": sum(f.is_resolved for f in futs)}
 
 
-_register(globals())
+def data_sync_edge_calls():
+    """Edge calls on the sync primitives: notify with nobody waiting, wait_for whose predicate is already
+    true and with a zero timeout, try_acquire on held primitives, a barrier of one party, releases that
+    wake several waiters at one instant."""
+    from happysimulator.components.sync.barrier import Barrier
+    from happysimulator.components.sync.condition import Condition
+    from happysimulator.components.sync.mutex import Mutex
+    from happysimulator.components.sync.rwlock import RWLock
+    from happysimulator.components.sync.semaphore import Semaphore
+    _seed(90)
+    mu, sem, rw, b1 = Mutex("mu"), Semaphore("sem", 2), RWLock("rw"), Barrier("b1", 1)
+    lock = Mutex("cl")
+    cond = Condition("cond", lock)
+    res = []
+
+    def solo(w, ev):
+        yield from lock.acquire(w.name)
+        cond.notify()
+        cond.notify_all()
+        ok = yield from cond.wait_for(lambda: True, timeout=0.0)
+        res.append(ok)
+        lock.release()
+        i = yield from b1.wait()
+        res.append(i)
+        res.append((mu.try_acquire("x"), mu.try_acquire("y"), sem.try_acquire(2), sem.try_acquire(1),
+                    rw.try_acquire_write(), rw.try_acquire_read()))
+        yield THIRD
+        mu.release()
+        sem.release(2)                       # wakes both one-permit waiters at this instant
+        rw.release_write()                   # wakes all parked readers at this instant
+
+    def waiter(w, ev):
+        yield from mu.acquire(w.name)
+        mu.release()
+        yield from sem.acquire(1)
+        yield from rw.acquire_read()
+        yield NS
+        rw.release_read()
+        sem.release(1)
+        res.append(w.now.nanoseconds)
+
+    def timed_out(w, ev):
+        yield from lock.acquire(w.name)
+        ok = yield from cond.wait_for(lambda: False, timeout=0.0)
+        res.append(ok)
+        lock.release()
+    s = _Proc("solo", solo)
+    ws = _workers(3, waiter)
+    tmo = _Proc("tmo", timed_out)
+    _run([mu, sem, rw, b1, lock, cond, s, tmo, *ws], [_ev(0.0, s), _ev(H3, tmo)] + [_ev(NS, w) for w in ws],
+         poke=[mu, sem, rw, b1, lock, cond])
+    return {"res": len(res)}
+
+
+# every scenario function of this module, by name (names start with "data_")
+SCENARIOS = {_k: _v for _k, _v in sorted(globals().items()) if _k.startswith("data_") and callable(_v)}
